@@ -1,1 +1,600 @@
 """bounded stand-ins: scaling, DAQmx (C11, C13, C14, C17, C18)"""
+import io
+import json
+import math
+import os
+import random
+import struct
+import sys
+import numpy as np
+from bounded import gen as G
+from bounded import tdmsbuild as B
+from bounded.fw import Result, runner, SEED, BUDGET, TIER, HERE, file_script
+from bounded.checks_reader import eq_arr
+
+DAQ_TYPES = {0: ("u1", 1), 1: ("i1", 1), 2: ("u2", 2), 3: ("i2", 2), 4: ("u4", 4), 5: ("i4", 4), 6: ("u8", 8),
+             7: ("i8", 8), 8: ("f4", 4), 9: ("f8", 8)}
+
+
+def img(a):
+    a = np.asarray(a)
+    return a.astype(a.dtype.newbyteorder("=")).tobytes()
+
+
+def daqmx_file(rng, digital=False, cut=None):
+    """-> (bytes, expected {path: {scale_id: ndarray}}, info)"""
+    big = rng.random() < 0.4
+    o = ">" if big else "<"
+    nb = rng.randint(1, 2)
+    widths = [rng.randint(2, 10) for _ in range(nb)]
+    lengths = [rng.randint(1, 4) for _ in range(nb)]
+    nchunks = rng.randint(1, 3)
+    chans = []
+    for ci in range(rng.randint(1, 3)):
+        b = rng.randrange(nb)
+        scalers = []
+        for si in range(rng.randint(1, 2)):
+            if digital:
+                tcode = 0
+                size = 1
+                byte = rng.randrange(widths[b])
+                bit = rng.randrange(8)
+                scalers.append(dict(t=tcode, buf=b, off=byte * 8 + bit, sid=si, size=size))
+            else:
+                tcode = rng.choice(list(DAQ_TYPES))
+                size = DAQ_TYPES[tcode][1]
+                if size > widths[b]:
+                    tcode, size = 0, 1
+                off = rng.randrange(widths[b] - size + 1)
+                scalers.append(dict(t=tcode, buf=b, off=off, sid=si, size=size))
+        chans.append(dict(path="/'g'/'d%d'" % ci, buf=b, scalers=scalers))
+    objs = [{"path": "/", "index": "none"}, {"path": "/'g'", "index": "none"}]
+    for c in chans:
+        ix = struct.pack(o + "L", 0x126A if digital else 0x1269)
+        ix += struct.pack(o + "LLQL", 0xFFFFFFFF, 1, lengths[c["buf"]], len(c["scalers"]))
+        for s in c["scalers"]:
+            if digital:
+                ix += struct.pack(o + "LLLBL", s["t"], s["buf"], s["off"], 0, s["sid"])
+            else:
+                ix += struct.pack(o + "LLLLL", s["t"], s["buf"], s["off"], 0, s["sid"])
+        ix += struct.pack(o + "L", nb) + b"".join(struct.pack(o + "L", w) for w in widths)
+        objs.append({"path": c["path"], "index": ("raw", ix)})
+    used = sorted(set(c["buf"] for c in chans))
+    # buffers not used by any channel have length 0 in the reader's view; avoid: make every buffer used
+    if len(used) != nb:
+        return daqmx_file(rng, digital, cut)
+    data = b""
+    chunks = []
+    for k in range(nchunks):
+        bufs = [bytes(rng.randrange(256) for _ in range(lengths[b] * widths[b])) for b in range(nb)]
+        chunks.append(bufs)
+        data += b"".join(bufs)
+    toc = B.TOC_META | B.TOC_NEW | B.TOC_RAW | B.TOC_DAQMX
+    full = B.enc_segment(objs, data, toc=toc, big=big)
+    exp = {}
+    for c in chans:
+        d = {}
+        for s in c["scalers"]:
+            vals = []
+            for bufs in chunks:
+                raw = bufs[s["buf"]]
+                w = widths[s["buf"]]
+                for j in range(lengths[s["buf"]]):
+                    if digital:
+                        byte, bit = s["off"] // 8, s["off"] % 8
+                        vals.append((raw[j * w + byte] >> bit) & 1)
+                    else:
+                        piece = raw[j * w + s["off"]: j * w + s["off"] + s["size"]]
+                        vals.append(np.frombuffer(piece, dtype=np.dtype(DAQ_TYPES[s["t"]][0]).newbyteorder(o))[0])
+            d[s["sid"]] = vals
+        exp[c["path"]] = d
+    return full, exp, dict(widths=widths, lengths=lengths, nchunks=nchunks, big=big, nb=nb, data_len=len(data),
+                           chans=chans)
+
+
+@runner("C11")
+def run_C11():
+    from nptdms import TdmsFile
+    res = Result("random DAQmx segments from an independent encoder: 1..3 channels x 1..2 format-changing or "
+                 "digital-line scalers over 1..2 raw buffers of random widths (padding allowed) and lengths, 1..3 "
+                 "chunks, both byte orders, random buffer bytes; eager scaler data vs bytes at (buffer, row stride, "
+                 "offset, type); lazy windows / chunk streams vs slices of the eager result; truncated final chunk "
+                 "gives complete rows only", "<= 3 channels x <= 2 scalers x <= 2 buffers x <= 3 chunks")
+    rng = random.Random(SEED + 11)
+    for it in range(int(400 * BUDGET)):
+        digital = rng.random() < 0.35
+        data, exp, info = daqmx_file(rng, digital)
+        res.case((it,), True, {"bytes": len(data), "widths": info["widths"], "lengths": info["lengths"],
+                               "digital": digital} if it < 2 else None)
+        try:
+            tf = TdmsFile.read(io.BytesIO(data))
+        except Exception as e:
+            res.violation("c11/read-raised", repr(e), file_script(data, "TdmsFile.read(io.BytesIO(data))\n"))
+            continue
+        ok_all = True
+        for p, d in exp.items():
+            ch = [c for g in tf.groups() for c in g.channels() if c.path == p][0]
+            got = ch.raw_scaler_data
+            for sid, vals in d.items():
+                if sid not in got or img(got[sid]) != img(np.array(vals, dtype=np.asarray(got[sid]).dtype.newbyteorder("="))):
+                    ok_all = False
+                    res.violation("c11/scaler-values", "%s scaler %d: got %r expected %r (%r)" % (p, sid, got.get(sid), vals, info),
+                                  file_script(data, "pass\n"))
+        if not ok_all:
+            continue
+        with TdmsFile.open(io.BytesIO(data)) as lz:
+            for g in tf.groups():
+                for ce in g.channels():
+                    cl = lz[g.name][ce.name]
+                    n = len(ce)
+                    full = ce.raw_scaler_data
+                    for off in range(0, n + 1):
+                        for ln in (None, 0, 1, 2, n):
+                            w = cl.read_data(off, ln, scaled=False)
+                            for sid, arr in full.items():
+                                e = arr[off:] if ln is None else arr[off:off + ln]
+                                if img(w.get(sid, np.array([], dtype=np.asarray(e).dtype))) != img(e):
+                                    res.violation("c11/lazy-window", "%s read_data(%r,%r) scaler %d" % (ce.path, off, ln, sid),
+                                                  file_script(data, "pass\n"))
+                    cat = {}
+                    for chunk in cl.data_chunks():
+                        for sid, a in chunk._raw_data.scaler_data.items():
+                            cat.setdefault(sid, []).extend(list(a))
+                    for sid, arr in full.items():
+                        if img(np.array(cat.get(sid, []), dtype=np.asarray(arr).dtype.newbyteorder("="))) != img(arr):
+                            res.violation("c11/chunk-stream", "%s scaler %d" % (ce.path, sid))
+        # truncated final chunk: complete rows only, prefix of the full data
+        chunk_bytes = sum(l * w for l, w in zip(info["lengths"], info["widths"]))
+        for cut in range(1, min(chunk_bytes, 12)):
+            piece = data[:len(data) - cut]
+            try:
+                t2 = TdmsFile.read(io.BytesIO(piece))
+            except Exception as e:
+                res.violation("c11/truncated-read-raised", "cut %d: %r" % (cut, e), file_script(piece, "pass\n"))
+                continue
+            for p, d in exp.items():
+                ch = [c for g in t2.groups() for c in g.channels() if c.path == p][0]
+                for sid, vals in d.items():
+                    got = ch.raw_scaler_data[sid]
+                    if img(got) != img(np.array(vals[:len(got)], dtype=np.asarray(got).dtype.newbyteorder("="))):
+                        res.violation("c11/truncated-not-a-prefix", "%s scaler %d cut %d" % (p, sid, cut))
+    return res
+
+
+# ---------------------------------------------------------------------------------------------- C13 / C14
+
+RAW_TYPES = {"int8": 1, "int16": 2, "int32": 3, "int64": 4, "uint8": 5, "uint16": 6, "uint32": 7, "uint64": 8,
+             "float32": 9, "float64": 10}
+
+
+def scale_props(rng, depth, with_count=True):
+    """random NI_Scale graph over Linear / Polynomial / Table / Add / Subtract; returns (props list, evaluator)"""
+    props = []
+    nodes = []
+    for i in range(depth):
+        kinds = ["Linear", "Polynomial", "Table"] + (["Add", "Subtract"] if i >= 1 else [])
+        k = rng.choice(kinds)
+        src = rng.choice([0xFFFFFFFF] + list(range(i)))
+        pre = "NI_Scale[%d]_" % i
+        props.append((pre + "Scale_Type", 0x20, k))
+        if k == "Linear":
+            m, b = rng.choice([2.0, -0.5, 1e-3]), rng.choice([0.0, 1.5, -7.0])
+            props += [(pre + "Linear_Slope", 10, m), (pre + "Linear_Y_Intercept", 10, b), (pre + "Linear_Input_Source", 7, src)]
+            nodes.append(("lin", src, m, b))
+        elif k == "Polynomial":
+            cs = [rng.choice([0.0, 1.0, -2.0, 0.25]) for _ in range(rng.randint(1, 4))]
+            props += [(pre + "Polynomial_Coefficients_Size", 7, len(cs)), (pre + "Polynomial_Input_Source", 7, src)]
+            props += [(pre + "Polynomial_Coefficients[%d]" % j, 10, c) for j, c in enumerate(cs)]
+            nodes.append(("poly", src, cs))
+        elif k == "Table":
+            n = rng.randint(2, 4)
+            xs = sorted(rng.sample(range(-50, 50), n))
+            ys = [rng.choice([-3.0, 0.0, 2.5, 10.0]) + j for j in range(n)]
+            if rng.random() < 0.5:
+                xs, ys = xs[::-1], ys[::-1]
+            props += [(pre + "Table_Scaled_Values_Size", 7, n), (pre + "Table_Pre_Scaled_Values_Size", 7, n),
+                      (pre + "Table_Input_Source", 7, src)]
+            props += [(pre + "Table_Scaled_Values[%d]" % j, 10, float(x)) for j, x in enumerate(xs)]
+            props += [(pre + "Table_Pre_Scaled_Values[%d]" % j, 10, y) for j, y in enumerate(ys)]
+            nodes.append(("table", src, xs, ys))
+        else:
+            l, r = rng.choice([0xFFFFFFFF] + list(range(i))), rng.choice([0xFFFFFFFF] + list(range(i)))
+            props += [(pre + "%s_Left_Operand_Input_Source" % k, 7, l), (pre + "%s_Right_Operand_Input_Source" % k, 7, r)]
+            nodes.append(("add" if k == "Add" else "sub", l, r))
+    if with_count:
+        props.append(("NI_Number_Of_Scales", 7, depth))
+
+    def ev(i, raw):
+        if i == 0xFFFFFFFF:
+            return raw
+        nd = nodes[i]
+        if nd[0] == "lin":
+            return ev(nd[1], raw).astype("float64") * nd[2] + nd[3]
+        if nd[0] == "poly":
+            x = ev(nd[1], raw).astype("float64")
+            return sum(c * x ** j for j, c in enumerate(nd[2])) if nd[2] else np.zeros(len(x))
+        if nd[0] == "table":
+            x = ev(nd[1], raw).astype("float64")
+            xs, ys = (nd[2], nd[3]) if nd[2][0] < nd[2][-1] else (nd[2][::-1], nd[3][::-1])
+            out = np.empty(len(x))
+            for t, v in enumerate(x):
+                if v <= xs[0]:
+                    out[t] = ys[0]
+                elif v >= xs[-1]:
+                    out[t] = ys[-1]
+                else:
+                    for a in range(len(xs) - 1):
+                        if xs[a] <= v <= xs[a + 1]:
+                            out[t] = ys[a] + (v - xs[a]) * (ys[a + 1] - ys[a]) / (xs[a + 1] - xs[a])
+                            break
+            return out
+        l, r = ev(nd[1], raw), ev(nd[2], raw)
+        return l + r if nd[0] == "add" else r - l
+    return props, (lambda raw: ev(depth - 1, raw))
+
+
+def scaled_file(rng, tname, props, place, n=6, chunks=2):
+    dt = np.dtype(tname)
+    info = np.iinfo(dt) if dt.kind in "iu" else None
+    vals = np.array([rng.randrange(max(info.min, -40), min(info.max, 40) + 1) if info else rng.uniform(-40, 40)
+                     for _ in range(n)]).astype(dt)
+    root = {"path": "/", "index": "none", "props": props if place == "root" else []}
+    grp = {"path": "/'g'", "index": "none", "props": props if place == "group" else []}
+    nv = n // chunks
+    ch = {"path": "/'g'/'c'", "index": ("full", RAW_TYPES[tname], nv), "props": props if place == "channel" else []}
+    data = b"".join(B.enc_values(RAW_TYPES[tname], vals[c * nv:(c + 1) * nv]) for c in range(chunks))
+    return B.enc_segment([root, grp, ch], data), vals[:nv * chunks]
+
+
+@runner("C13")
+def run_C13():
+    from nptdms import TdmsFile
+    res = Result("random NI_Scale graphs of depth 1..4 over Linear / Polynomial / Table / Add / Subtract with random "
+                 "wiring (several scales reading the raw data), on raw data of the 10 numeric types, scaling properties "
+                 "on channel / group / root, with and without NI_Number_Of_Scales; expected by an independent "
+                 "evaluation; window == window of scaled data; lazy == eager; raw data unchanged; 'scaled' status",
+                 "depth <= 4; 6 values in 2 chunks")
+    rng = random.Random(SEED + 13)
+    for it in range(int(500 * BUDGET)):
+        depth = rng.randint(1, 4)
+        props, ev = scale_props(rng, depth, with_count=rng.random() < 0.7)
+        tname = rng.choice(list(RAW_TYPES))
+        place = rng.choice(["channel", "group", "root"])
+        data, raw = scaled_file(rng, tname, props, place)
+        res.case((it,), True, {"depth": depth, "type": tname, "place": place} if it < 3 else None)
+        try:
+            with np.errstate(all="ignore"):
+                want = np.asarray(ev(raw), dtype="float64")
+            tf = TdmsFile.read(io.BytesIO(data))
+            ch = tf["g"]["c"]
+            before = ch.raw_data.copy()
+            got = np.asarray(ch[:], dtype="float64")
+            if not np.array_equal(ch.raw_data, before) or not np.array_equal(before, raw):
+                res.violation("c13/raw-data-modified", "type %s" % tname, file_script(data, "pass\n"))
+            tol = 1e-9 * (1 + np.abs(want))
+            if got.shape != want.shape or not np.all((np.abs(got - want) <= tol) | (np.isnan(got) & np.isnan(want)) | (got == want)):
+                res.violation("c13/scaled-values", "type %s place %s props %r: got %r want %r" % (tname, place, props, got, want),
+                              file_script(data, "print(TdmsFile.read(io.BytesIO(data))['g']['c'][:]); sys.exit(1)\n"))
+                continue
+            with TdmsFile.open(io.BytesIO(data)) as lz:
+                cl = lz["g"]["c"]
+                if not eq_arr(np.asarray(cl[:]), np.asarray(ch[:])):
+                    res.violation("c13/lazy-differs-from-eager", tname)
+                for off, ln in ((0, 2), (1, 4), (3, 3), (2, 0)):
+                    if not eq_arr(np.asarray(cl.read_data(off, ln)), np.asarray(ch[:])[off:off + ln]):
+                        res.violation("c13/window-does-not-commute-with-scaling", "%s (%d,%d)" % (tname, off, ln))
+                for i in (0, 3, 5):
+                    a, b = cl[i], ch[:][i]
+                    if not (a == b or (a != a and b != b)):
+                        res.violation("c13/index-differs", "%s [%d]" % (tname, i))
+        except Exception as e:
+            res.violation("c13/raised", "%r props %r" % (e, props), file_script(data, "print(TdmsFile.read(io.BytesIO(data))['g']['c'][:])\n"))
+    # status 'scaled': no other scaling in scope -> returned unscaled
+    props, ev = scale_props(random.Random(1), 1)
+    data, raw = scaled_file(random.Random(2), "int16", props + [("NI_Scaling_Status", 0x20, "scaled")], "channel")
+    got = TdmsFile.read(io.BytesIO(data))["g"]["c"][:]
+    res.case(("scaled-status",))
+    if not np.array_equal(got, raw):
+        res.violation("c13/scaled-status-not-honoured", "%r vs %r" % (got, raw))
+    return res
+
+
+def _sensor_props(kind):
+    if kind == "RTD":
+        return [("NI_Scale[0]_Scale_Type", 0x20, "RTD"), ("NI_Scale[0]_RTD_Current_Excitation", 10, 1e-3),
+                ("NI_Scale[0]_RTD_R0_Nominal_Resistance", 10, 100.0), ("NI_Scale[0]_RTD_A", 10, 3.9083e-3),
+                ("NI_Scale[0]_RTD_B", 10, -5.775e-7), ("NI_Scale[0]_RTD_C", 10, -4.183e-12),
+                ("NI_Scale[0]_RTD_Lead_Wire_Resistance", 10, 0.0), ("NI_Scale[0]_RTD_Resistance_Configuration", 7, 3),
+                ("NI_Scale[0]_RTD_Input_Source", 7, 0xFFFFFFFF), ("NI_Number_Of_Scales", 7, 1)]
+    if kind == "Thermocouple":
+        return [("NI_Scale[0]_Scale_Type", 0x20, "Thermocouple"), ("NI_Scale[0]_Thermocouple_Thermocouple_Type", 7, 10073),
+                ("NI_Scale[0]_Thermocouple_Scaling_Direction", 7, 0), ("NI_Scale[0]_Thermocouple_Input_Source", 7, 0xFFFFFFFF),
+                ("NI_Number_Of_Scales", 7, 1)]
+    if kind == "Thermistor":
+        return [("NI_Scale[0]_Scale_Type", 0x20, "Thermistor"), ("NI_Scale[0]_Thermistor_Excitation_Type", 7, 10134),
+                ("NI_Scale[0]_Thermistor_Excitation_Value", 10, 1e-4), ("NI_Scale[0]_Thermistor_Resistance_Configuration", 7, 4),
+                ("NI_Scale[0]_Thermistor_R1_Reference_Resistance", 10, 5000.0), ("NI_Scale[0]_Thermistor_Lead_Wire_Resistance", 10, 0.0),
+                ("NI_Scale[0]_Thermistor_A", 10, 1.295e-3), ("NI_Scale[0]_Thermistor_B", 10, 2.343e-4), ("NI_Scale[0]_Thermistor_C", 10, 1.018e-7),
+                ("NI_Scale[0]_Thermistor_Temperature_Offset", 10, 0.0), ("NI_Scale[0]_Thermistor_Input_Source", 7, 0xFFFFFFFF),
+                ("NI_Number_Of_Scales", 7, 1)]
+    if kind == "Strain":
+        return [("NI_Scale[0]_Scale_Type", 0x20, "Strain"), ("NI_Scale[0]_Strain_Configuration", 7, 10271),
+                ("NI_Scale[0]_Strain_Poisson_Ratio", 10, 0.3), ("NI_Scale[0]_Strain_Gage_Resistance", 10, 350.0),
+                ("NI_Scale[0]_Strain_Lead_Wire_Resistance", 10, 0.0), ("NI_Scale[0]_Strain_Initial_Bridge_Voltage", 10, 0.0),
+                ("NI_Scale[0]_Strain_Gage_Factor", 10, 2.1), ("NI_Scale[0]_Strain_Bridge_Shunt_Calibration_Gain_Adjustment", 10, 1.0),
+                ("NI_Scale[0]_Strain_Voltage_Excitation", 10, 2.5), ("NI_Scale[0]_Strain_Input_Source", 7, 0xFFFFFFFF),
+                ("NI_Number_Of_Scales", 7, 1)]
+    raise ValueError(kind)
+
+
+@runner("C14")
+def run_C14():
+    from nptdms import TdmsFile
+    res = Result("every raw type (10 numeric + bool, complex, string, timestamp) x {no scaling, Linear, Polynomial, "
+                 "Table, Add(raw, linear), Subtract, RTD, Thermocouple, Thermistor, Strain, 'AdvancedAPI'} (numeric "
+                 "types), eager and lazy: dtype of full read, window, slice, empty window, chunks, integer index, "
+                 "iteration and of a zero-length channel equals channel.dtype; len(full read) == len(channel); both "
+                 "byte orders; raw_timestamps", "exhaustive over raw type x scale kind; 6 values per channel")
+    res.exhaustive = True
+    rng = random.Random(SEED + 14)
+    scale_kinds = ["none", "Linear", "Polynomial", "Table", "Add", "Subtract", "RTD", "Thermocouple", "Thermistor",
+                   "Strain", "AdvancedAPI", "Linear-int-coefficients"]
+    for tname in list(RAW_TYPES):
+        for sk in scale_kinds:
+            for n in (6, 0):
+                if sk == "none":
+                    props = []
+                elif sk in ("RTD", "Thermocouple", "Thermistor", "Strain"):
+                    props = _sensor_props(sk)
+                elif sk == "AdvancedAPI":
+                    props = [("NI_Scale[0]_Scale_Type", 0x20, "AdvancedAPI"), ("NI_Number_Of_Scales", 7, 1)]
+                elif sk == "Linear-int-coefficients":
+                    props = [("NI_Scale[0]_Scale_Type", 0x20, "Linear"), ("NI_Scale[0]_Linear_Slope", 3, 2),
+                             ("NI_Scale[0]_Linear_Y_Intercept", 3, 1), ("NI_Number_Of_Scales", 7, 1)]
+                elif sk in ("Add", "Subtract"):
+                    props = [("NI_Scale[0]_Scale_Type", 0x20, "Linear"), ("NI_Scale[0]_Linear_Slope", 10, 2.0),
+                             ("NI_Scale[0]_Linear_Y_Intercept", 10, 1.0), ("NI_Scale[1]_Scale_Type", 0x20, sk),
+                             ("NI_Scale[1]_%s_Left_Operand_Input_Source" % sk, 7, 0xFFFFFFFF),
+                             ("NI_Scale[1]_%s_Right_Operand_Input_Source" % sk, 7, 0), ("NI_Number_Of_Scales", 7, 2)]
+                else:
+                    r2 = random.Random(5)
+                    while True:
+                        props, _ = scale_props(r2, 1)
+                        if props[0][2] == sk:
+                            break
+                data, raw = scaled_file(rng, tname, props, "channel", n=n, chunks=2 if n else 1)
+                if tname in ("uint8",) and sk in ("RTD", "Thermistor"):
+                    pass
+                res.case((tname, sk, n), True, {"raw": tname, "scale": sk, "n": n} if (tname, sk, n) == ("float32", "Linear", 6) else None)
+                try:
+                    with np.errstate(all="ignore"):
+                        eager = TdmsFile.read(io.BytesIO(data))["g"]["c"]
+                        declared = eager.dtype
+                        got = {"eager[:]": eager[:].dtype, "eager.read_data(1,2)": eager.read_data(1, 2).dtype,
+                               "eager.read_data(0,0)": eager.read_data(0, 0).dtype, "eager[2:2]": eager[2:2].dtype}
+                        if len(eager[:]) != len(eager):
+                            res.violation("c14/len", "%s %s" % (tname, sk))
+                        with TdmsFile.open(io.BytesIO(data)) as f:
+                            lz = f["g"]["c"]
+                            if lz.dtype != declared:
+                                res.violation("c14/declared-dtype-differs-lazy-vs-eager", "%s %s" % (tname, sk))
+                            got.update({"lazy[:]": lz[:].dtype, "lazy.read_data(1,2)": lz.read_data(1, 2).dtype,
+                                        "lazy[5:1]": lz[5:1].dtype, "lazy[::2]": lz[::2].dtype,
+                                        "lazy.read_data(9,2)": lz.read_data(9, 2).dtype})
+                            for k, c in enumerate(lz.data_chunks()):
+                                got["lazy.chunk%d" % k] = c[:].dtype
+                            if n:
+                                got["lazy[0]"] = np.asarray(lz[0]).dtype
+                                got["iter"] = np.asarray(next(iter(lz))).dtype
+                            if len(lz[:]) != len(lz):
+                                res.violation("c14/len", "%s %s lazy" % (tname, sk))
+                    for k, d in got.items():
+                        if d != declared:
+                            res.violation("c14/declared-dtype-equals-actual[%s x %s]" % (sk, tname),
+                                          "%s: declared %s, %s has %s" % (tname, declared, k, d),
+                                          file_script(data, "c = TdmsFile.read(io.BytesIO(data))['g']['c']\nprint(c.dtype, c[:].dtype)\nsys.exit(0 if c.dtype == c[:].dtype else 1)\n"))
+                except Exception as e:
+                    if sk in ("RTD", "Thermistor", "Thermocouple", "Strain", "Table") :
+                        # sensor laws may reject unphysical random raw values (e.g. several negative roots): not a dtype matter
+                        continue
+                    res.violation("c14/raised[%s x %s]" % (sk, tname), repr(e), file_script(data, "print(TdmsFile.read(io.BytesIO(data))['g']['c'][:])\n"))
+    # non-numeric types, both byte orders, raw timestamps
+    for tcode, items in ((0x20, ["a", "bc"]), (0x21, [b"\x01", b"\x00"]), (0x44, [struct.pack("<Qq", 5, 7)] * 2),
+                         (0x08000C, [b"\x00" * 8] * 2), (0x10000D, [b"\x01" * 16] * 2)):
+        for big in (False, True):
+            for raw_ts in (False, True):
+                seg = G.Seg([dict(path="/'g'/'c'", tcode=tcode, nv=2, has_data=True, props=[], data=[items, items])], 2, big, False)
+                G.GC["/'g'/'c'"] = ("g", "c")
+                data = G.encode([seg])
+                res.case((tcode, big, raw_ts), True)
+                eager = TdmsFile.read(io.BytesIO(data), raw_timestamps=raw_ts)["g"]["c"]
+                declared = eager.dtype
+                with TdmsFile.open(io.BytesIO(data), raw_timestamps=raw_ts) as f:
+                    lz = f["g"]["c"]
+                    got = {"eager[:]": np.asarray(eager[:]).dtype, "lazy[:]": np.asarray(lz[:]).dtype,
+                           "lazy[1:1]": np.asarray(lz[1:1]).dtype, "lazy.read_data(1,1)": np.asarray(lz.read_data(1, 1)).dtype}
+                    chunk_dt = [np.asarray(c[:]).dtype for c in lz.data_chunks()]
+                for k, d in got.items():
+                    if d != declared:
+                        key = "raw-timestamps dtype" if (tcode == 0x44 and raw_ts) else "c14/declared-dtype-equals-actual[type %x]" % tcode
+                        res.violation(key, "type %x big=%s raw_ts=%s: declared %s, %s has %s" % (tcode, big, raw_ts, declared, k, d))
+                for d in chunk_dt:
+                    if d != declared:
+                        if tcode == 0x44 and raw_ts:
+                            res.violation("raw-timestamps dtype", "chunk dtype %s vs declared %s" % (d, declared))
+                        elif big:
+                            res.violation("big-endian chunk dtype", "type %x: chunk dtype %s vs declared %s" % (tcode, d, declared))
+                        else:
+                            res.violation("c14/chunk-dtype[type %x]" % tcode, "%s vs %s" % (d, declared))
+    # big-endian numeric chunk dtype (recorded finding)
+    seg = G.Seg([dict(path="/'g'/'c'", tcode=3, nv=2, has_data=True, props=[], data=[[b"\x01\x00\x00\x00"] * 2])], 1, True, False)
+    data = G.encode([seg])
+    with TdmsFile.open(io.BytesIO(data)) as f:
+        lz = f["g"]["c"]
+        for c in lz.data_chunks():
+            if c[:].dtype != lz.dtype:
+                res.violation("big-endian chunk dtype", "int32 big-endian: chunk %s vs declared %s" % (c[:].dtype, lz.dtype))
+    return res
+
+
+# ---------------------------------------------------------------------------------------------- C17 / C18
+
+@runner("C17")
+def run_C17():
+    from nptdms import scaling as S
+
+    class Raw(object):
+        def __init__(self, d):
+            self.data = d
+            self.scaler_data = None
+    res = Result("random physically meaningful parameter sets; the voltage produced by the sensor law for a grid of "
+                 "temperatures / strains is fed to the scaling and must come back within 1e-6 relative (IEEE "
+                 "evaluation, which the real-arithmetic proofs do not decide)", "200 parameter sets x 40 points per law")
+    rng = random.Random(SEED + 17)
+    for it in range(int(200 * BUDGET)):
+        # RTD
+        R0 = rng.choice([100.0, 1000.0, 500.0])
+        A, Bc, C = 3.9083e-3 * rng.uniform(0.98, 1.02), -5.775e-7 * rng.uniform(0.98, 1.02), -4.183e-12 * rng.uniform(0.9, 1.1)
+        I = rng.choice([1e-3, 5e-4, 1e-4])
+        wires = rng.choice([2, 3, 4])
+        RL = rng.choice([0.0, 0.5, 2.0])
+        k = {2: 2, 3: 1, 4: 0}[wires]
+        T = np.linspace(-190, 840, 40)
+        R = np.where(T >= 0, R0 * (1 + A * T + Bc * T ** 2), R0 * (1 + A * T + Bc * T ** 2 + C * (T - 100) * T ** 3))
+        V = I * (R + k * RL)
+        res.case(("rtd", it), True, {"law": "RTD", "R0": R0, "wires": wires} if it == 0 else None)
+        try:
+            got = S.RtdScaling(I, R0, A, Bc, C, RL, wires, 0xFFFFFFFF).scale(V)
+            if not np.all(np.abs(got - T) <= 1e-6 * np.maximum(1.0, np.abs(T))):
+                res.violation("c17/rtd", "max err %g" % np.max(np.abs(got - T)))
+        except Exception as e:
+            res.violation("c17/rtd-raised", repr(e))
+        # thermistor
+        a, b, c = 1.295e-3 * rng.uniform(0.9, 1.1), 2.343e-4 * rng.uniform(0.9, 1.1), 1.018e-7 * rng.uniform(0.9, 1.1)
+        Tk = np.linspace(250, 400, 40)
+        # invert Steinhart-Hart numerically for R: solve a + b L + c L^3 = 1/T by Newton
+        L = np.full_like(Tk, 9.0)
+        for _ in range(60):
+            L = L - (a + b * L + c * L ** 3 - 1 / Tk) / (b + 3 * c * L ** 2)
+        Rt = np.exp(L)
+        off = rng.choice([0.0, 273.15])
+        for exc in ("current", "voltage"):
+            wires = rng.choice([2, 3, 4])
+            RL = rng.choice([0.0, 1.0])
+            if exc == "current":
+                EV = 1e-4
+                V = EV * (Rt + {2: 2, 3: 1, 4: 0}[wires] * RL)
+                et = 10134
+            else:
+                EV, R1 = 2.5, 5000.0
+                Rm = Rt + {2: 0, 3: 1, 4: 0}[wires] * RL
+                V = EV * Rm / (R1 + Rm)
+                et = 10322
+            res.case(("thermistor", it, exc), True)
+            got = S.ThermistorScaling(et, EV, wires, 5000.0, RL, a, b, c, off, 0xFFFFFFFF).scale(V)
+            if not np.all(np.abs(got - (Tk - off)) <= 1e-6 * np.maximum(1.0, np.abs(Tk))):
+                res.violation("c17/thermistor-" + exc, "max err %g" % np.max(np.abs(got - (Tk - off))))
+        # strain
+        G_, nu, Vex, Vi, gain = rng.uniform(1.8, 2.2), rng.uniform(0.2, 0.35), rng.choice([2.5, 5.0, 10.0]), rng.choice([0.0, 1e-4]), rng.choice([1.0, 1.02])
+        RG, RL = 350.0, rng.choice([0.0, 1.0])
+        e = np.linspace(-2e-3, 2e-3, 41)
+        e = e[e != 0]
+        for cfg, code in (("FULL_BRIDGE_1", 10183), ("FULL_BRIDGE_2", 10184), ("FULL_BRIDGE_3", 10185), ("HALF_BRIDGE_1", 10188),
+                          ("HALF_BRIDGE_2", 10189), ("QUARTER_BRIDGE_1", 10271), ("QUARTER_BRIDGE_2", 10272)):
+            one = 1.0
+            if cfg == "FULL_BRIDGE_1":
+                R1 = R3 = one - e * G_; R2 = R4 = one + e * G_
+            elif cfg == "FULL_BRIDGE_2":
+                R1, R2, R3, R4 = one - e * nu * G_, one + e * nu * G_, one - e * G_, one + e * G_
+            elif cfg == "FULL_BRIDGE_3":
+                R1 = R3 = one - e * nu * G_; R2 = R4 = one + e * G_
+            elif cfg == "HALF_BRIDGE_1":
+                R1 = R2 = one + 0 * e; R3, R4 = one - e * nu * G_, one + e * G_
+            elif cfg == "HALF_BRIDGE_2":
+                R1 = R2 = one + 0 * e; R3, R4 = one - e * G_, one + e * G_
+            else:
+                R1 = R2 = R3 = one + 0 * e; R4 = one + e * G_
+            Vo = (R3 / (R3 + R4) - R2 / (R1 + R2)) * Vex + Vi
+            lead = 1.0 if cfg.startswith("FULL") else (1 + RL / RG)
+            res.case(("strain", it, cfg), True)
+            got = S.StrainScaling(code, nu, RG, RL, Vi, G_, gain, Vex, 0xFFFFFFFF).scale(Vo)
+            want = e * gain * lead
+            if not np.all(np.abs(got - want) <= 1e-6 * np.abs(want) + 1e-15):
+                res.violation("c17/strain-" + cfg, "max rel err %g" % np.max(np.abs(got - want) / np.abs(want)))
+    return res
+
+
+@runner("C18")
+def run_C18():
+    from nptdms import thermocouples as TC
+    from nptdms import scaling as S
+    ref = json.load(open(os.path.join(HERE, "spec", "its90.json")))["types"]
+    res = Result("per type: forward conversion on a dense grid (>= 10**5 points) plus every piece boundary and its "
+                 "floating-point neighbours against the frozen NIST coefficients; continuity and monotonicity on the "
+                 "grid; inverse(forward(T)) within the NIST error range over the inverse validity range; totality; "
+                 "ThermocoupleScaling direction and microvolt convention", "8 types x 10**5 grid points per direction")
+    N = 100000 if TIER == "quick" else 400000
+    for name in "BEJKNRST":
+        tc = getattr(TC, "type_" + name.lower())
+        fwd = ref[name]["forward"]
+        lo, hi = fwd[0]["lo"], fwd[-1]["hi"]
+        T = np.linspace(lo, hi, N)
+        bounds = [p["hi"] for p in fwd[:-1]]
+        extra = []
+        for b in bounds + [lo, hi]:
+            extra += [b, np.nextafter(b, -np.inf), np.nextafter(b, np.inf)]
+        T = np.sort(np.concatenate([T, np.array([x for x in extra if lo <= x <= hi])]))
+        want = np.empty_like(T)
+        for i, p in enumerate(fwd):
+            cs = [float(c) for c in p["coefficients_ascending"]]
+            m = (T >= p["lo"]) & ((T < p["hi"]) if i + 1 < len(fwd) else (T <= p["hi"]))
+            acc = np.zeros(m.sum())
+            for c in reversed(cs):
+                acc = acc * T[m] + c
+            if p["gaussian"]:
+                a0, a1, a2 = [float(x) for x in p["gaussian"]]
+                acc = acc + a0 * np.exp(a1 * (T[m] - a2) ** 2)
+            want[m] = acc
+        got = tc.celsius_to_mv(T)
+        res.evaluations += len(T)
+        res.distinct.update((name, "fwd", i) for i in range(0, len(T), max(1, len(T) // 50)))
+        if len(res.samples) < 3:
+            res.samples.append({"type": name, "T": float(T[len(T) // 3]), "mV": float(got[len(T) // 3])})
+        if np.any(np.isnan(got)):
+            res.violation("c18/forward-nan/" + name, "NaN at T=%r" % float(T[np.isnan(got)][0]))
+        err = np.nanmax(np.abs(got - want))
+        if not err <= 1e-9 * max(1.0, np.nanmax(np.abs(want))):
+            i = int(np.nanargmax(np.abs(got - want)))
+            res.violation("c18/forward-differs-from-NIST/" + name, "max |diff| %g mV at T=%r" % (err, float(T[i])))
+        start = 50.0 if name == "B" else lo
+        m = T >= start
+        d = np.diff(got[m])
+        wide = np.diff(T[m]) > 1e-9              # neighbouring doubles may tie or differ by rounding noise
+        Tm = T[m]
+        for b in bounds:                          # the standard's own pieces meet only to within ~1e-6 mV
+            wide &= ~((Tm[:-1] < b) & (Tm[1:] >= b))
+        if np.any(d[wide] <= 0) or np.any(d < -2e-6):
+            res.violation("c18/forward-not-increasing/" + name, "at T=%r" % float(T[m][1:][(d <= 0) & wide][0] if np.any((d <= 0) & wide) else T[m][1:][d < -2e-6][0]))
+        for b in bounds:
+            l, r = float(tc.celsius_to_mv(np.array([np.nextafter(b, -np.inf)]))[0]), float(tc.celsius_to_mv(np.array([b]))[0])
+            if abs(l - r) > 1e-6:
+                res.violation("c18/forward-discontinuous/" + name, "jump %g at %r" % (abs(l - r), b))
+        for (Ta, Tb, elo, ehi) in ref[name]["inverse_error_ranges"]:
+            Tt = np.linspace(Ta, Tb, N // 4)
+            back = tc.mv_to_celsius(tc.celsius_to_mv(Tt))
+            res.evaluations += len(Tt)
+            e = back - Tt
+            if np.any(np.isnan(back)):
+                res.violation("c18/inverse-nan/" + name, "")
+            elif e.min() < elo - 0.015 or e.max() > ehi + 0.015:
+                res.violation("c18/inverse-error-outside-NIST-range/" + name, "range [%s,%s]: error %g..%g allowed %g..%g" % (Ta, Tb, e.min(), e.max(), elo, ehi))
+        V = np.concatenate([np.linspace(float(got.min()) - 1, float(got.max()) + 1, 2000), np.array([-1e9, 1e9])])
+        if np.any(np.isnan(tc.mv_to_celsius(V))) or np.any(np.isnan(tc.celsius_to_mv(np.array([-1e6, 1e6, lo - 1, hi + 1])))):
+            res.violation("c18/not-total/" + name, "NaN outside the standard's range")
+        code = {"B": 10047, "E": 10055, "J": 10072, "K": 10073, "N": 10077, "R": 10082, "S": 10085, "T": 10086}[name]
+        x = np.array([0.5 * (lo + hi)], dtype="float32")
+        f = S.ThermocoupleScaling(code, 1, 0xFFFFFFFF).scale(x)
+        g = S.ThermocoupleScaling(code, 0, 0xFFFFFFFF).scale(f)
+        if abs(float(f[0]) - 1000.0 * float(tc.celsius_to_mv(x.astype("float64"))[0])) > 1e-6 or abs(float(g[0]) - float(x[0])) > 0.1:
+            res.violation("c18/scaling-direction-or-units/" + name, "%r %r" % (f, g))
+    return res
